@@ -101,6 +101,22 @@ class CallMixin:
         if isinstance(e.func, ast.Name) and getattr(st, "spec", False) and e.func.id in ("old", "forall", "exists"):
             yield self.spec_form(e, st), st
             return
+        if isinstance(e.func, ast.Name) and getattr(st, "spec", False) and e.func.id in ("implies", "iff", "ite") and e.func.id not in st.env:
+            p = st.ghost.get("__pol__", 0)
+            try:
+                if e.func.id == "implies":
+                    st.ghost["__pol__"] = -p
+                    a = self.ev1(e.args[0], st)
+                    st.ghost["__pol__"] = p
+                    b = self.ev1(e.args[1], st)
+                    yield V(BOOL, z3.Implies(self.truth(a, st), self.truth(b, st))), st
+                else:
+                    st.ghost["__pol__"] = 0
+                    args = [self.ev1(x, st) for x in e.args]
+                    yield getattr(self, "bi_" + e.func.id)(args, {}, st, e), st
+            finally:
+                st.ghost["__pol__"] = p
+            return
         if isinstance(e.func, ast.Name) and e.func.id == "super":
             raise Unsupported("bare super()", e)
         # super().__init__(...)
@@ -562,6 +578,81 @@ class CallMixin:
             raise Unsupported("sorted needs an external contract", node)
         return self.apply_contract(c, args, kw, st, node)
 
+    def bi_deepcopy(self, args, kw, st, node):
+        """copy.deepcopy on the container shapes met in the units (assumed contract: fresh, disjoint, isomorphic)."""
+        v = args[0]
+        self.externals_used.add("copy.deepcopy")
+        prim = (INT, BOOL, REAL)
+        if is_list(v.kind):
+            if v.kind.target.elem is None:
+                return self.new_list(st, None)
+            ek = self.elem_kind(v)
+            if ek in prim or isinstance(ek, Opaque):
+                return self.new_list(st, ek, self.llen(st, v), self.larr(st, v))
+            raise Unsupported(f"deepcopy of {v.kind}", node)
+        if is_dict(v.kind):
+            if v.kind.target.k is None:
+                return self.new_dict(st, None, None)
+            k, vk = self.dict_kinds(v)
+            if vk in prim or isinstance(vk, Opaque):
+                d = self.new_dict(st, k, vk)
+                self._copy_dict_shell(st, v, d)
+                mn = self.H.n_map(k.sort(), vk.sort())
+                ma = self.H.map_arr(st, k.sort(), vk.sort())
+                st.heap[mn] = z3.Store(ma, d.term, ma[v.term])
+                return d
+            if is_list(vk) and (vk.target.elem in prim or isinstance(vk.target.elem, Opaque)):
+                ek = vk.target.elem
+                d = self.new_dict(st, k, vk)
+                self._copy_dict_shell(st, v, d)
+                # the copied gene lists occupy a fresh block [t0, t0+n): the list for key k sits at
+                # t0 + (position of k in the key list) -- injective on the domain, quantifier-free
+                skl = self.dkeys(st, v)
+                n = self.llen(st, skl)
+                karr = self.H.el_arr(st, k.sort())[skl.term]
+                t0 = st.top
+                st.top = t0 + n
+                M = self.H.map_arr(st, k.sort(), vk.sort())[v.term]
+                pos = z3.Function(f"kpos_{k.name}", I, k.sort(), I)
+                kk = z3.Const("dc_k", k.sort())
+                M2 = z3.Lambda([kk], t0 + pos(v.term, kk))
+                mn = self.H.n_map(k.sort(), vk.sort())
+                st.heap[mn] = z3.Store(self.H.map_arr(st, k.sort(), vk.sort()), d.term, M2)
+                aa = z3.Int("dc_a")
+                inblk = z3.And(aa >= t0, aa < t0 + n)
+                ln, el, tg = self.H.len_arr(st), self.H.el_arr(st, ek.sort()), self.cls_arr(st)
+                st.heap["len"] = z3.Lambda([aa], z3.If(inblk, ln[M[karr[aa - t0]]], ln[aa]))
+                st.heap[self.H.n_el(ek.sort())] = z3.Lambda([aa], z3.If(inblk, el[M[karr[aa - t0]]], el[aa]))
+                st.heap["f___cls_Int"] = z3.Lambda([aa], z3.If(inblk, z3.IntVal(self.container_tag(vk.target)), tg[aa]))
+                return d
+        raise Unsupported(f"deepcopy of {v.kind}", node)
+
+    def _copy_dict_shell(self, st, src, dst):
+        k = src.kind.target.k
+        dn = self.H.n_dom(k.sort())
+        da = self.H.dom_arr(st, k.sort())
+        st.heap[dn] = z3.Store(da, dst.term, da[src.term])
+        skl = self.dkeys(st, src)
+        dkl = V(Ref(ListT(k)), self.H.dkeys_arr(st)[dst.term])
+        st.heap["len"] = z3.Store(self.H.len_arr(st), dkl.term, self.llen(st, skl))
+        en = self.H.n_el(k.sort())
+        ea = self.H.el_arr(st, k.sort())
+        st.heap[en] = z3.Store(ea, dkl.term, ea[skl.term])
+        # the copy's key positions coincide with the source's
+        pos = z3.Function(f"kpos_{k.name}", I, k.sort(), I)
+        kk = z3.Const("dcs_k", k.sort())
+        st.assume(z3.ForAll([kk], pos(dst.term, kk) == pos(src.term, kk), patterns=[pos(dst.term, kk)]))
+
+    def bi_keysof(self, args, kw, st, node):
+        """spec: keysof(d) = the dict's key list in insertion order"""
+        return self.dkeys(st, args[0])
+
+    def bi_eqlist(self, args, kw, st, node):
+        """spec: two lists have the same length and the same contents"""
+        a, b = args
+        ek = self.elem_kind(a)
+        return V(BOOL, z3.And(self.llen(st, a) == self.llen(st, b), self.larr(st, a) == self.larr(st, b)))
+
     def bi_any(self, args, kw, st, node):
         return self._anyall(args, st, node, True)
 
@@ -627,22 +718,42 @@ class CallMixin:
             s2.ghost["__old__"] = None
             s2.pc = st.pc
             return self.ev1(e.args[0], s2)
+        pol = st.ghost.get("__pol__", 0)
+        st.ghost["__pol__"] = 0
         lo = ops.to_int_term(self.ev1(e.args[0], st))
         hi = ops.to_int_term(self.ev1(e.args[1], st))
+        st.ghost["__pol__"] = pol
+        skolem = (name == "forall" and pol == 1) or (name == "exists" and pol == -1)
         lam = e.args[2]
         if not isinstance(lam, ast.Lambda) or len(lam.args.args) != 1:
             raise Unsupported("quantifier body must be a one-argument lambda", e)
         vn = lam.args.args[0].arg
-        k = z3.Int(f"q_{vn}_{e.lineno}_{e.col_offset}")
+        k = fresh("sk_" + vn, I) if skolem else z3.Int(f"q_{vn}_{e.lineno}_{e.col_offset}")
         saved = st.env.get(vn)
         st.env[vn] = V(INT, k)
+        outer_facts = st.ghost.get("__facts__", [])
+        st.ghost["__facts__"] = []
         body = self.ev1(lam.body, st)
+        inner = st.ghost.get("__facts__", [])
+        from .solve import _mentions
+
+        mine = [f for f in inner if _mentions(f[0], k)]
+        st.ghost["__facts__"] = outer_facts + [f for f in inner if not _mentions(f[0], k)]
         if saved is None:
             st.env.pop(vn, None)
         else:
             st.env[vn] = saved
         bt = self.truth(body, st)
         rng = z3.And(lo <= k, k < hi)
+        if skolem:
+            st.ghost["__facts__"] = st.ghost["__facts__"] + mine
+            return V(BOOL, z3.Implies(rng, bt) if name == "forall" else z3.And(rng, bt))
+        if mine:
+            # invariant instances at the access terms of the body, carried by a quantifier over the same
+            # bound variable (valid in every reachable heap; queued for the enclosing level)
+            for fact, trig in mine:
+                q = z3.ForAll([k], z3.Implies(rng, fact))
+                st.ghost["__facts__"].append((q, None))
         if name == "forall":
             return V(BOOL, z3.ForAll([k], z3.Implies(rng, bt)))
         return V(BOOL, z3.Exists([k], z3.And(rng, bt)))
